@@ -56,9 +56,21 @@ type Iface struct {
 
 // Opaque is an uninterpreted object or function result (cipher.Block, CMAC state, …).
 type Opaque struct {
-	Kind string
-	Args []Value
-	Msg  []Value // accumulated message bytes for hash-like objects
+	Kind  string
+	Args  []Value
+	State *Cell // hash-like objects: accumulated message as a *Slice (stored through the write log)
+}
+
+func (o *Opaque) msg() []Value {
+	if o.State == nil || o.State.V == nil {
+		return nil
+	}
+	s := o.State.V.(*Slice)
+	out := make([]Value, s.Len())
+	for i := range out {
+		out[i] = s.At(i).V
+	}
+	return out
 }
 type Tuple []Value
 
@@ -188,6 +200,24 @@ func (in *Interp) Sym(path string, t types.Type, msbFirst bool) Value {
 	return nil
 }
 
+// SymByteArraysInterleaved builds several [n]byte arrays whose variables are interleaved element- and bit-wise.
+func (in *Interp) SymByteArraysInterleaved(names []string, n int) []*Array {
+	out := make([]*Array, len(names))
+	for k := range names {
+		out[k] = &Array{Elem: types.Typ[types.Uint8]}
+	}
+	for i := 0; i < n; i++ {
+		var ns []string
+		for _, nm := range names {
+			ns = append(ns, fmt.Sprintf("%s[%d]", nm, i))
+		}
+		for k, b := range in.D.SymInterleaved(ns, 8, false) {
+			out[k].E = append(out[k].E, &Cell{b})
+		}
+	}
+	return out
+}
+
 // SymBytes builds a slice of n symbolic bytes named name[i].
 func (in *Interp) SymBytes(name string, n int) *Slice {
 	bk := &Backing{}
@@ -287,7 +317,7 @@ func (in *Interp) ite(c Node, a, b Value) Value {
 		if y, ok := b.(*Ptr); ok && x.To == y.To {
 			return x
 		}
-		unsupported("pointer identity depends on a symbolic condition")
+		panic(SplitRequest{Cond: c, Why: "pointer identity depends on a symbolic condition"})
 	case *Iface:
 		if y, ok := b.(*Iface); ok {
 			_, xn := x.Dyn.(NilVal)
@@ -304,7 +334,7 @@ func (in *Interp) ite(c Node, a, b Value) Value {
 				return &ErrVal{in.D.M.And(in.D.M.Not(c), y.NonNil)}
 			}
 		}
-		unsupported("interface dynamic type depends on a symbolic condition")
+		panic(SplitRequest{Cond: c, Why: "interface dynamic type depends on a symbolic condition"})
 	case *StrVal:
 		if y, ok := b.(*StrVal); ok {
 			if x.Known && y.Known && x.S == y.S {
@@ -316,7 +346,7 @@ func (in *Interp) ite(c Node, a, b Value) Value {
 		if y, ok := b.(*Opaque); ok && x == y {
 			return x
 		}
-		unsupported("opaque object identity depends on a symbolic condition")
+		panic(SplitRequest{Cond: c, Why: "opaque object identity depends on a symbolic condition"})
 	case Tuple:
 		y := b.(Tuple)
 		n := make(Tuple, len(x))
@@ -325,8 +355,7 @@ func (in *Interp) ite(c Node, a, b Value) Value {
 		}
 		return n
 	}
-	unsupported("cannot merge %T with %T under a symbolic condition", a, b)
-	return nil
+	panic(SplitRequest{Cond: c, Why: fmt.Sprintf("cannot merge %T with %T under a symbolic condition", a, b)})
 }
 
 // Show renders a value for reports (compact).
